@@ -855,6 +855,18 @@ def subscript(interp, base, idx, st, node):
                 from .api_numpy import shape_terms
 
                 return V("arr", T("reshape1", base.term, *shape_terms(sh)), shape=sh, orig=base.orig, labels=base.labels, loc=base.loc, extra=base.extra if isinstance(base.extra, str) else None)
+        its_ = idx.items if idx.kind == "tuple" and idx.items is not None else [idx]
+        if len(its_) == len(base.shape) and all(d.is_const() and d.c == 1 for d in base.shape) and all(i_.has_const and isinstance(i_.const, int) and not isinstance(i_.const, bool) and i_.const in (0, -1) for i_ in its_):
+            # the single entry of a 1 x 1 (x 1 ...) array
+            return V("arr", T("reshape1", base.term), shape=(), orig=frozenset([FRESH]), labels=labels, loc=fresh_id(), extra=base.extra if isinstance(base.extra, str) else None)
+        if idx.kind == "slice1" and len(base.shape) >= 2 and idx.items and idx.items[0].kind == "int" and not idx.items[0].has_const:
+            # a[i:i+1] for a symbolic position i: the element a[i] with a unit leading axis
+            el = subscript(interp, base, idx.items[0], st, node)
+            if el.kind == "arr" and el.shape is not None:
+                from .api_numpy import shape_terms
+
+                nsh = (Dim(1),) + tuple(el.shape)
+                return V("arr", T("reshape1", el.term, *shape_terms(nsh)), shape=nsh, orig=el.orig, labels=el.labels, loc=el.loc, extra=el.extra if isinstance(el.extra, str) else None)
     term = T("getitem", base.term, idx.term)
     if base.kind in ("arr", "list", "tuple"):
         shape = index_shape(interp, base, idx, st, node)
